@@ -36,6 +36,7 @@ TECHNIQUE = (
     "namespace seam, every call history <= 3 in fresh forks, every 2-thread schedule within a preemption bound under a "
     "settrace-based cooperative scheduler; hash seeds cross-checked in fresh subprocesses"
 )
+TECHNIQUE += "; " + 'also: generated families of pairwise colliding operations, calls through a second tokenizer, special-list names as the first input of a fresh process'
 RULE = (
     "setorder: corpus = all documents of <= 2 fragments of A1 (tie-rich) + every reporter string on which two extractors match "
     "the same span; per document every iteration of a controlled set x every order of the order menu; histories: all "
